@@ -4,7 +4,7 @@
 // Wire-level spec functions (vlen, vval, venc, vsize, zz, unzz, le32, le64) are those of proto/protowire.
 package binary
 
-//@ global nonnil errInvalidTag errInvalidFieldNumber errInvalidDataType errUnknonwField errDecodeField io.EOF
+//@ global nonnil errInvalidTag errInvalidFieldNumber errInvalidDataType errUnknonwField errDecodeField errDismatchPrimitive io.EOF
 
 //@ typeinv *BinaryProtocol as p = p != nil && 0 <= p.Read && p.Read <= len(p.Buf)
 
@@ -318,3 +318,50 @@ package binary
 //@       p.Buf[old(len(p.Buf))+k] == protowire.venc(uint64(num)<<3 | uint64(typ&7), k)
 //@   ensures read: p.Read == old(p.Read)
 //@   modifies p.Buf, bytes(p.Buf)
+
+// ---- descriptor-driven scalar reader: one reader per kind, the same one the writer mirrors -----------------
+// (the MESSAGE case recurses through ReadAnyWithDesc and Go maps: excluded by precondition, not under contract)
+//@ pure isvar(t proto.Type) bool = t == proto.BOOL || t == proto.ENUM || t == proto.INT32 || t == proto.SINT32 || t == proto.UINT32 || \
+//@      t == proto.INT64 || t == proto.SINT64 || t == proto.UINT64
+//@ spec (*BinaryProtocol).ReadBaseTypeWithDesc
+//@   props C20 C07 C06
+//@   requires scalar: desc != nil && desc.typ != proto.MESSAGE && !samerg(desc, p)
+//@   ensures mono: old(p.Read) <= p.Read
+//@   ensures var_adv: isvar(desc.typ) && old(tagl(p)) > 0 ==> r1 == nil && p.Read == old(p.Read) + old(tagl(p))
+//@   ensures var_bad: isvar(desc.typ) && old(tagl(p)) == 0 ==> r1 != nil && p.Read == old(p.Read)
+//@   ensures i32: desc.typ == proto.INT32 && r1 == nil ==> dyntype(r0, int32) && boxed(r0, int32) == int32(old(tagv(p)))
+//@   ensures s32: desc.typ == proto.SINT32 && r1 == nil ==> dyntype(r0, int32) && boxed(r0, int32) == protowire.unzz32(uint32(old(tagv(p))))
+//@   ensures u32: desc.typ == proto.UINT32 && r1 == nil ==> dyntype(r0, uint32) && boxed(r0, uint32) == uint32(old(tagv(p)))
+//@   ensures i64: desc.typ == proto.INT64 && r1 == nil ==> dyntype(r0, int64) && boxed(r0, int64) == int64(old(tagv(p)))
+//@   ensures s64: desc.typ == proto.SINT64 && r1 == nil ==> dyntype(r0, int64) && boxed(r0, int64) == protowire.unzz(old(tagv(p)))
+//@   ensures u64: desc.typ == proto.UINT64 && r1 == nil ==> dyntype(r0, uint64) && boxed(r0, uint64) == old(tagv(p))
+//@   ensures sf32: desc.typ == proto.SFIX32 && r1 == nil ==> dyntype(r0, int32) && boxed(r0, int32) == int32(protowire.le32(p.Buf, old(p.Read))) && p.Read == old(p.Read) + 4
+//@   ensures sf64: desc.typ == proto.SFIX64 && r1 == nil ==> dyntype(r0, int64) && boxed(r0, int64) == int64(protowire.le64(p.Buf, old(p.Read))) && p.Read == old(p.Read) + 8
+//@   ensures f64: desc.typ == proto.DOUBLE && r1 == nil ==> dyntype(r0, float64) && bits(boxed(r0, float64)) == protowire.le64(p.Buf, old(p.Read)) && p.Read == old(p.Read) + 8
+//@   ensures f32: desc.typ == proto.FLOAT && r1 == nil ==> dyntype(r0, float32) && bits(boxed(r0, float32)) == protowire.le32(p.Buf, old(p.Read)) && p.Read == old(p.Read) + 4
+//@   modifies p.Read
+
+// descriptor-driven scalar writer, exact-type values (cast == false): the bytes appended are those of the per-kind
+// writer, i.e. exactly what ReadBaseTypeWithDesc decodes back (zig-zag for sint32/sint64, plain varint otherwise).
+//@ template wb_var(KIND, GOT, ENC)
+//@   ensures len: desc.typ == KIND && dyntype(val, GOT) ==> r0 == nil && len(p.Buf) == old(len(p.Buf)) + protowire.vsize(ENC)
+//@   ensures enc: desc.typ == KIND && dyntype(val, GOT) ==> forall k :: 0 <= k && k < protowire.vsize(ENC) ==> p.Buf[old(len(p.Buf))+k] == protowire.venc(ENC, k)
+//@   ensures keep: desc.typ == KIND && dyntype(val, GOT) ==> forall i :: 0 <= i && i < old(len(p.Buf)) ==> p.Buf[i] == old(p.Buf[i])
+//@   ensures bad: desc.typ == KIND && !dyntype(val, GOT) ==> r0 != nil && len(p.Buf) == old(len(p.Buf))
+//@ end
+
+//@ spec (*BinaryProtocol).WriteBaseTypeWithDesc
+//@   props C20 C09 C06
+//@   requires scalar: desc != nil && desc.typ != proto.MESSAGE && !cast && !samerg(desc, p) && !samerg(desc, p.Buf)
+//@   requires kinds: desc.typ == proto.INT32 || desc.typ == proto.SINT32 || desc.typ == proto.UINT32 || desc.typ == proto.INT64 || desc.typ == proto.SINT64 || desc.typ == proto.UINT64
+//@   use wb_var(proto.INT32, int32, uint64(old(boxed(val, int32))))
+//@   ensures s32len: desc.typ == proto.SINT32 && dyntype(val, int32) ==> r0 == nil && len(p.Buf) == old(len(p.Buf)) + protowire.vsize(protowire.zz(int64(old(boxed(val, int32)))))
+//@   ensures i64len: desc.typ == proto.INT64 && dyntype(val, int64) ==> r0 == nil && len(p.Buf) == old(len(p.Buf)) + protowire.vsize(uint64(old(boxed(val, int64))))
+//@   ensures i64enc: desc.typ == proto.INT64 && dyntype(val, int64) ==> forall k :: 0 <= k && k < protowire.vsize(uint64(old(boxed(val, int64)))) ==> \
+//@       p.Buf[old(len(p.Buf))+k] == protowire.venc(uint64(old(boxed(val, int64))), k)
+//@   ensures s64len: desc.typ == proto.SINT64 && dyntype(val, int64) ==> r0 == nil && len(p.Buf) == old(len(p.Buf)) + protowire.vsize(protowire.zz(old(boxed(val, int64))))
+//@   ensures s64enc: desc.typ == proto.SINT64 && dyntype(val, int64) ==> forall k :: 0 <= k && k < protowire.vsize(protowire.zz(old(boxed(val, int64)))) ==> \
+//@       p.Buf[old(len(p.Buf))+k] == protowire.venc(protowire.zz(old(boxed(val, int64))), k)
+//@   ensures u64len: desc.typ == proto.UINT64 && dyntype(val, uint64) ==> r0 == nil && len(p.Buf) == old(len(p.Buf)) + protowire.vsize(old(boxed(val, uint64)))
+//@   ensures read: p.Read == old(p.Read)
+//@   modifies p.Buf, p.Buf[len(p.Buf):cap(p.Buf)]
